@@ -10,17 +10,6 @@ import (
 	symx "com.tuntun.rangers/node/src/zz_symx"
 )
 
-var c04Init bool
-
-func c04Setup() {
-	if !c04Init {
-		common.Init(0, "verif.ini", "mainnet")
-		Init()
-		c04Init = true
-	}
-	common.SetBlockHeight(1 << 40)
-}
-
 var (
 	c04A = common.Address{19: 0xa1} // existing account with balance, nonce, a storage slot, code
 	c04B = common.Address{19: 0xb2} // existing empty-ish account (balance only)
@@ -226,5 +215,3 @@ func VerifC04_RevertNested() {
 	symx.Check(st.IntermediateRoot(true) == twin.IntermediateRoot(true), "root after nested reverts equals the untouched root")
 	symx.Reach("end")
 }
-
-
